@@ -49,12 +49,19 @@ def gen(rng, tier):
         if rng.random() < 0.07 and "bs(" not in fml and "poly(" not in fml:
             fml += rng.choice([" + (1 | uid)", " + (x | uid)", " + (0 + x | uid)"])
             kind = kind + "/observation-level-group"
+        long_ = None
+        if len(cases) % 50 == 7:
+            # eight cases in a quick run also carry a long-frame check (see _long_oracle)
+            long_ = {"n": rng.choice([10001, 12345, 30001]), "seed": rng.randrange(10 ** 6), "sorted": rng.random() < 0.5,
+                     "formula": rng.choice(["y ~ bs(x, df=6) + grp", "y ~ bs(x, df=4, degree=2)", "y ~ 0 + bs(x, df=5):grp",
+                                            "y ~ scale(x) + poly(x, 3)"])}
         if rng.random() < 0.05:
             # a formula that mentions NO column of the frame: every column is then an unused one
             fml = "1"
             kind = "no-column-used"
         cases.append({"formula": fml, "frame": fr, "na": rng.choice(["drop", "drop", "error"]) if fml == "1" else "drop",
-                      "perm": perm, "index": idx_kind, "colperm": colperm, "kind": kind})
+                      "perm": perm, "index": idx_kind, "colperm": colperm, "kind": kind + ("/long-frame" if long_ else ""),
+                      **({"long": long_} if long_ else {})})
     return cases
 
 
@@ -185,7 +192,38 @@ def _same(a, b):
     return None
 
 
+def _long_oracle(c):
+    """frames of more than ten thousand rows (built here from a seed, not shipped in the case): permuting the rows
+    permutes the matrices and leaves the fitted spline knots alone, whatever the number of rows"""
+    import numpy as np
+    import pandas as pd
+    from formulae import design_matrices
+    spec = c["long"]
+    g = np.random.default_rng(spec["seed"])
+    n = spec["n"]
+    df = pd.DataFrame({"y": g.normal(size=n), "x": np.sort(g.gamma(2.0, 2.0, size=n)) if spec["sorted"] else g.gamma(2.0, 2.0, size=n),
+                       "grp": g.choice(["p", "q", "r"], size=n)})
+    perm = g.permutation(n)
+    f = spec["formula"]
+    try:
+        d1 = design_matrices(f, df)
+        d2 = design_matrices(f, df.iloc[perm].reset_index(drop=True))
+    except Exception as e:
+        return f"{f!r} on {n} rows raises {type(e).__name__}: {str(e)[:80]}"
+    M1 = np.asarray(d1.common.design_matrix, dtype=float)
+    M2 = np.asarray(d2.common.design_matrix, dtype=float)
+    if M1.shape != M2.shape or not np.allclose(M2, M1[perm], rtol=1e-9, atol=1e-9):
+        bad = float(np.abs(M2 - M1[perm]).max()) if M1.shape == M2.shape else None
+        return (f"{f!r} on a frame of {n} rows: permuting the rows does not permute the common matrix "
+                f"(largest difference {bad})")
+    return None
+
+
 def oracle(c):
+    if c.get("long"):
+        msg = _long_oracle(c)
+        if msg:
+            return msg
     o = impl_obs(c)
     if o[0] != "ok":
         # rejected on the plain frame: every variant must be rejected as well
